@@ -125,6 +125,8 @@ EXPORT errno_t _memcpy_s_chk(void *restrict dest, rsize_t dmax,
     if (srcbos == BOS_UNKNOWN) {
         BND_CHK_PTR_BOUNDS(src, slen);
     } else if (unlikely(slen > srcbos)) {
+        mem_prim_set(dest, dmax, 0);
+        MEMORY_BARRIER;
         invoke_safe_mem_constraint_handler("memcpy_s: slen exceeds src",
                                            (void *)src, EOVERFLOW);
         return (RCNEGATE(EOVERFLOW));
